@@ -250,16 +250,19 @@ impl<F: Fam> Ctx<F> {
             Op::SetExtend { s, items, by_ref, from_iter } => self.do_set_extend((*s & 1) as usize, items, *by_ref, *from_iter),
             Op::SetMisc { s, which, arg } => {
                 let s = (*s & 1) as usize;
+                let w = *which % 6;
                 let a = match arg {
+                    // HashSet::try_reserve is the one set operation that takes a huge argument
+                    CapArg::Huge(i) if w == 5 => resolve_huge(*i),
                     CapArg::Huge(_) => 0,
                     other => self.resolve_cap(s + 2, *other),
                 };
-                self.do_set_misc(s, *which % 5, a)
+                self.do_set_misc(s, w, a)
             }
             Op::SetClone { dst, src, from } => self.do_set_clone((*dst & 1) as usize, (*src & 1) as usize, *from),
             Op::SetAlgebra => self.do_set_algebra(),
             Op::SetPar { threads, reps } => self.do_set_par(*threads, *reps),
-            Op::SetSerde { s, in_place } => self.do_set_serde((*s & 1) as usize, *in_place),
+            Op::SetSerde { s, in_place, empty } => self.do_set_serde((*s & 1) as usize, *in_place, *empty),
         }
     }
 
